@@ -5,6 +5,7 @@ import (
 	"strings"
 
 	"github.com/buildbuildio/pebbles/common"
+	"github.com/buildbuildio/pebbles/simhook"
 
 	"github.com/vektah/gqlparser/v2/ast"
 )
@@ -19,6 +20,7 @@ func (ir *IntrospectionResolver) ResolveIntrospectionFields(selectionSet ast.Sel
 	introspectionResult := make(map[string]interface{})
 	var isIntrospection bool
 	for _, f := range common.SelectionSetToFields(selectionSet, nil) {
+		simhook.Yield("introspect.root-field")
 		switch f.Name {
 		case "__type":
 			name := f.Arguments.ForName("name").Value.Raw
